@@ -288,6 +288,8 @@ pub struct EncOpts {
 	/// order of the metadata / leaf directories / tile data sections after the root directory, with padding between them
 	pub section_order: [u8; 3],
 	pub padding: bool,
+	/// leave the three tile counts of the header at 0 — the specification's value for "unknown"
+	pub unknown_counts: bool,
 }
 
 impl EncOpts {
@@ -302,6 +304,7 @@ impl EncOpts {
 			no_meta: rng.chance(0.2),
 			section_order: *rng.pick(&[[0u8, 1, 2], [0, 1, 2], [2, 1, 0], [1, 2, 0], [2, 0, 1], [0, 2, 1], [1, 0, 2]]),
 			padding: rng.chance(0.3),
+			unknown_counts: rng.chance(0.25),
 		}
 	}
 }
@@ -383,7 +386,7 @@ pub fn encode(ts: &TileSet, o: &EncOpts, rng: &mut Rng) -> Vec<u8> {
 	let mut h = vec![];
 	h.extend_from_slice(b"PMTiles");
 	h.push(3);
-	for v in [root_off, root.len() as u64, meta_off, meta.len() as u64, leaves_off, leaves.len() as u64, data_off, data.len() as u64, ts.tiles.len() as u64, n_entries, contents] {
+	for v in [root_off, root.len() as u64, meta_off, meta.len() as u64, leaves_off, leaves.len() as u64, data_off, data.len() as u64, if o.unknown_counts { 0 } else { ts.tiles.len() as u64 }, if o.unknown_counts { 0 } else { n_entries }, if o.unknown_counts { 0 } else { contents }] {
 		h.extend_from_slice(&v.to_le_bytes());
 	}
 	h.push(if o.unclustered { 0 } else { 1 });
